@@ -327,7 +327,10 @@ def _run(case):
     if k not in _CACHE:
         if len(_CACHE) > 4000:
             _CACHE.clear()
-        _CACHE[k] = C.run_threads(case)
+        r = C.run_threads(case)
+        if r["outcome"] == "hang":  # a loaded machine can starve a run: confirm before calling it a hang
+            r = C.run_threads(case, wall=40.0)
+        _CACHE[k] = r
     return _CACHE[k]
 
 
